@@ -537,11 +537,13 @@ def _drive(obs, mgr, xfers, spec, mode, do_cancel):
             elif mode == 'shutdown_plain':
                 mgr.shutdown()
             elif mode == 'with_exc':
+                cls = with_exc_class(spec)
                 try:
                     with mgr:
-                        raise ValueError(msg)
-                except ValueError:
-                    pass
+                        raise cls(msg)
+                except BaseException as e:  # noqa
+                    if type(e) is not cls:
+                        raise
             elif mode == 'with_kbi':
                 try:
                     with mgr:
@@ -566,6 +568,15 @@ def _drive(obs, mgr, xfers, spec, mode, do_cancel):
             _record_outcomes(xfers)
             return
         _record_outcomes(xfers)
+
+
+class VfBaseException(BaseException):
+    """A BaseException that is neither an Exception nor a KeyboardInterrupt (like asyncio.CancelledError or a framework's own)."""
+
+
+def with_exc_class(spec):
+    """The exception type a 'with_exc' run raises inside the with-block: a non-interrupt exception of any kind."""
+    return {'systemexit': SystemExit, 'generatorexit': GeneratorExit, 'base': VfBaseException}.get(spec.get('with_exc_type'), ValueError)
 
 
 class _ProbeTask:
